@@ -114,6 +114,7 @@ func init() {
 			ruleDictCapDecode(c, r, "")
 			ruleDictCapEncode(c, r, "")
 			ruleLzmaFilterCodec(c, r, "")
+			ruleBlockFilters(c, r, "")
 			r.Floor("CE-DICT-DEC", 1)
 			r.Floor("CE-DICT-ENC", 1)
 			r.Floor("CE-FILTER", 2)
